@@ -103,18 +103,18 @@ ADDENDA = {
     'C02': ' Also: a one-trans hit is justified by comparing the input accessor with the probe; transition_addr dispatches per node form.',
     'C03': ' Also: the cut-off does not depend on the lengths of key and bound; a frame is abandoned only when exhausted or pruned and a transition is read only in range; the convenience collectors keep exactly one entry per streamed item.',
     'C04': ' Also: the provided hint methods of the Automaton trait are the trivially sound ones; the cut-off table of bounded searches; frames abandoned only when exhausted or pruned.',
-    'C05': ' Also: the emit flag of difference is re-armed per candidate and cleared exactly on key equality.',
+    'C05': ' Also: the emit flag of difference is re-armed per candidate and cleared exactly on key equality; every stream given to an operation builder (add / push / extend / from_iter) reaches the list of input streams.',
     'C07': ' Also: the adapter does not forward to the inner writer a second time before accounting.',
     'C09': ' Also: files the CLI writes FSTs into are created empty (File::create / truncate / create_new).',
     'C10': ' Also: the format constants and the reader half of the layout table (offsets, scan window, bit fields of every node accessor) are decided under this property too.',
-    'C11': ' Also: no BufWriter / LineWriter is put around the sink without being flushed or unwrapped (its Drop discards write errors); positive control in the fixture.',
+    'C11': ' Also: no BufWriter / LineWriter is put around the sink without being flushed or unwrapped (its Drop discards write errors); positive control in the fixture; fail fast: no builder state is touched between a fallible call and the test of its result.',
     'C12': ' Also: a miss inspects every cell of the row (row length = the shipped column literal) and overwrites the last cell; is_none tests equality with the fresh-cell marker; the address-0 shortcut guard; freeze-loop depth (len - istate >= 2 in exact linear form) and child linking.',
     'C13': ' Also: no builder front end collects or sorts its input.',
     'C14': ' Also: sized allocations on the reader / stream side request a constant or capped capacity; the entry lists are cleared per candidate after its slot is taken.',
     'C15': ' Also: rejected calls leave no trace (R06.x shared) and checksum / addresses depend on the accepted bytes only (R07.1 shared).',
     'C16': ' Also: the step follows take_while(output <= remaining).last(); success is tested before the first step and concerns one node.',
     'C18': ' Also decided as shape: Str and Subsequence start at position 0, advance by one exactly on byte equality with the pattern byte at the current position, Str matches at its length; provided trait hints.',
-    'C19': ' Also: lossless batching of the work list (no chunks_exact / take / truncate), the row iterators over several input files end only when the file list is empty.',
+    'C19': ' Also: lossless batching of the work list (no chunks_exact / take / truncate), the row iterators over several input files end only when the file list is empty; one worker per iteration of 0..threads; conservation of items in every pipeline loop; the last partial batch is sent; wiring of merger / sort / finish / sends / final copy / --max --min (fst-bin has no tests of its own).',
 }
 
 NOT_APPLICABLE = {
